@@ -164,15 +164,21 @@ fn all_scripts(alpha: &[char], n: usize) -> Vec<String> {
 /// Append preemption bound and execution cap to a queue spec, chosen from the size of the
 /// program: small programs are explored without any bound (all interleavings).
 fn bounded(spec: String, tier: &str) -> String {
+    // an explicit bound in a generator is an upper limit; the weight rule below may lower it
+    let mut explicit: Option<usize> = None;
     let spec = match spec.find(":P=") {
-        // explicit bounds in the generators are upper limits; the weight rule below may lower them
         Some(i) => {
             let rest = &spec[i + 3..];
             let end = rest.find(':').map(|e| i + 3 + e).unwrap_or(spec.len());
+            explicit = spec[i + 3..end].parse().ok();
             format!("{}{}", &spec[..i], &spec[end..])
         }
         None => spec,
     };
+    if spec.contains(":D=") {
+        // delay-bounded instances carry their own bound
+        return format!("{}:max={}", spec, if tier == "thorough" { 4_000_000 } else { 400_000 });
+    }
     let get = |k: &str| spec.split(':').find_map(|p| p.strip_prefix(k)).unwrap_or("").to_string();
     let prog = get("prog=");
     let prods = get("prod=");
@@ -200,10 +206,75 @@ fn bounded(spec: String, tier: &str) -> String {
         Some(if th { 2 } else { 1 })
     };
     let cap = if th { 4_000_000 } else { 400_000 };
+    let p = match (p, explicit) {
+        (Some(a), Some(b)) => Some(a.min(b)),
+        (None, Some(b)) => Some(b),
+        (a, None) => a,
+    };
     match p {
         None => format!("{}:max={}", spec, cap),
         Some(p) => format!("{}:P={}:max={}", spec, p, cap),
     }
+}
+
+/// Instances aimed at thresholds beyond the small scope: long single-producer runs along the
+/// canonical schedule, large capacities filled to the brim, very long metrics, many threads under
+/// delay bounding, and the complete error alphabet (every io::ErrorKind, every errno 1..=133).
+fn queue_thresholds(what: &str, tier: &str) -> Vec<String> {
+    let th = tier == "thorough";
+    let mut v: Vec<String> = vec![];
+    let e = |n: usize| "E0".repeat(n);
+    match what {
+        "errors" => {
+            for k in 0..40 {
+                v.push(format!("queue:cap=u:script=eoe:kind={}:prog=E0E0E0W", k));
+            }
+            for n in 1..=133 {
+                v.push(format!("queue:cap=u:script=eo:errno={}:prog=E0E0W", n));
+            }
+        }
+        "long" => {
+            // long backlogs (the canonical schedule lets main run first), panics sprinkled in
+            let sprinkled: String = (0..300).map(|i| if i % 7 == 3 { 'p' } else if i % 11 == 5 { 'e' } else { 'o' }).collect();
+            v.push(format!("queue:cap=u:script={}:prog={}W:P=0", sprinkled, e(300)));
+            v.push(format!("queue:cap=u:script={}:prog={}QRE0E0QR:P=0", sprinkled, e(300)));
+            v.push(format!("queue:cap=u:script={}:prog={}:P=0", sprinkled, e(300)));
+            v.push(format!("queue:cap=400:script={}:prog={}QRE0QR:P=0", sprinkled, e(420)));
+            // long streaks of one outcome
+            v.push(format!("queue:cap=u:script={}:prog={}QRE0E0W:P=0", "p".repeat(130), e(130)));
+            v.push(format!("queue:cap=u:script={}:prog={}QRE0E0W:P=0", "e".repeat(140), e(140)));
+            v.push(format!("queue:cap=u:script={}:prog={}:P=0", "p".repeat(130), e(135)));
+            v.push(format!("queue:cap=u:script={}:h=0:prog={}W:P=0", "e".repeat(140), e(140)));
+            if th {
+                // many long metrics that panic (accumulated bytes)
+                v.push(format!("queue:cap=u:big=60000:script={}:prog={}QE0E0W:P=0", "p".repeat(1200), e(1200)));
+            }
+        }
+        "big" => {
+            for big in [65507usize, 65508, 70000, 200_000] {
+                v.push(format!("queue:cap=u:big={}:prog=E0E0W", big));
+                v.push(format!("queue:cap=1:big={}:script=oe:prog=E0E0D0", big));
+            }
+        }
+        "caps" => {
+            // capacities beyond typical pre-allocation thresholds, filled completely (gated sink)
+            for cap in [4097usize, 5000, 16385, 20000] {
+                // the worker takes the first metric and parks in the gated sink; then the queue is filled
+                v.push(format!("queue:cap={}:script=b:prog=E0Q{}QROQR:P=0", cap, e(cap + 2)));
+                // one slot left, two producers race for it
+                v.push(format!("queue:cap={}:script=b:prog=E0Q{}SJQROQR:prod=E,E:P=2", cap, e(cap - 1)));
+            }
+        }
+        _ => {
+            // many threads, delay-bounded
+            let many = vec!["E"; 18].join(",");
+            v.push(format!("queue:cap=u:prog=SJQR:prod={}:D=1", many));
+            v.push(format!("queue:cap=4:prog=SJQR:prod={}:D=1", many));
+            let eight = vec!["E"; 8].join(",");
+            v.push(format!("queue:cap=u:script=p:prog=SJQR:prod={}:D=2", eight));
+        }
+    }
+    v
 }
 
 fn c08(tier: &str) -> Vec<String> {
@@ -244,6 +315,10 @@ fn c08(tier: &str) -> Vec<String> {
     // a long run of one producer (default-ish schedules only): accumulated state in the worker
     v.push("queue:cap=u:script=opoe:prog=".to_string() + &"E0".repeat(60) + "W:P=0");
     v.push("queue:cap=3:prog=".to_string() + &"E0".repeat(40) + "QR:P=0");
+    v.extend(queue_thresholds("long", tier));
+    v.extend(queue_thresholds("big", tier));
+    v.extend(queue_thresholds("errors", tier));
+    v.extend(queue_thresholds("many", tier));
     // concurrent producers
     let pb = if th { 3 } else { 2 };
     let prods: &[&str] = if th { &["E,E", "EE,E", "EE,ED", "ED,ED", "EE,EE", "E,E,E", "EED,E"] } else { &["E,E", "EE,E", "EE,ED", "ED,ED", "EE,EE"] };
@@ -280,6 +355,10 @@ fn c09(tier: &str) -> Vec<String> {
                 v.push(format!("queue:cap={}:script={}:prog={}", cap, sc, prog));
             }
         }
+        if cap == "u" {
+            v.extend(queue_thresholds("long", tier));
+            v.extend(queue_thresholds("caps", tier));
+        }
         for pr in ["E,E", "ED,E", "EE,ED"] {
             v.push(format!("queue:cap={}:prog=SD0J:prod={}:P={}", cap, pr, if th { 3 } else { 2 }));
             v.push(format!("queue:cap={}:script=pp:prog=SD0J:prod={}:P={}", cap, pr, if th { 3 } else { 2 }));
@@ -300,6 +379,11 @@ fn c10(tier: &str) -> Vec<String> {
                 v.push(format!("queue:cap={}:script={}:order={}:prog={}{}", cap, sc, order, emits, tail));
             }
             v.push(format!("queue:cap={}:script={}:h=0:prog={}{}", cap, sc, emits, tail));
+        }
+        if cap == "u" {
+            v.extend(queue_thresholds("caps", tier));
+            v.extend(queue_thresholds("long", tier));
+            v.extend(queue_thresholds("many", tier));
         }
         // concurrent producers racing for the last slots
         let prods: Vec<String> = if th { vec!["EE,EE".into(), "EEE,EE".into(), "E,E,E".into(), "EE,E,E".into()] } else { vec!["EE,EE".into(), "E,E,E".into()] };
@@ -332,6 +416,8 @@ fn c11(tier: &str) -> Vec<String> {
             }
         }
     }
+    v.extend(queue_thresholds("long", tier));
+    v.extend(queue_thresholds("errors", tier).into_iter().map(|s| s.replace("script=eo:", "script=ep:").replace("script=eoe:", "script=epe:")));
     // panics after the scripted prefix too (later metrics panic)
     for sc in ["opop", "oopp", "popo"] {
         v.push(format!("queue:cap=u:script={}:prog=E0E0QRE0E0QR", sc));
@@ -347,6 +433,9 @@ fn c11(tier: &str) -> Vec<String> {
 fn c15(tier: &str) -> Vec<String> {
     let th = tier == "thorough";
     let mut v = vec![];
+    v.extend(queue_thresholds("caps", tier));
+    v.extend(queue_thresholds("many", tier));
+    v.extend(queue_thresholds("long", tier));
     let pb = if th { 3 } else { 2 };
     for cap in ["1", "2", "u"] {
         for sc in ["", "p", "e"] {
@@ -391,6 +480,8 @@ fn c16(tier: &str) -> Vec<String> {
             v.push(format!("queue:cap=u:script={}:prog=SJW:prod={}:P={}", sc, pr, if th { 3 } else { 2 }));
         }
     }
+    v.extend(queue_thresholds("errors", tier));
+    v.extend(queue_thresholds("long", tier));
     // a wrapped sink whose flush fails too (dead connection): still one handler call per failed metric
     for sc in all_scripts(&['o', 'e', 'i'], 2) {
         for order in ["hc", "ch"] {
